@@ -17,7 +17,8 @@ RULE = ("Hypothesis-generated compose descriptions (release/base product/compose
         "Non-trivial = forest has a child variant or a path table, or a label, base product or non-ga type is present; "
         "distinct = SHA-1 of the canonical description.")
 ASSUMPTIONS = ["json (stdlib) is a correct JSON reader", "descriptions stay inside the domain of C01's quantifier"]
-FLOORS = {"distinct_nontrivial": 150, "roundtrip:depth3": 10, "roundtrip:layered": 20, "roundtrip:dashed-top-uid": 10}
+FLOORS = {"distinct_nontrivial": 150, "roundtrip:depth3": 10, "roundtrip:layered": 20, "roundtrip:dashed-top-uid": 10,
+          "roundtrip:dashed-top-uid-with-children": 10}
 
 case_strategy = st.fixed_dictionaries({"desc": cim.compose_desc(), "plan": st.sampled_from([0, 0, 1, 2, 3, 4, 5, 6, 7]),
                                         "via_file": st.integers(0, 5).map(lambda i: i == 0)})
